@@ -1,5 +1,6 @@
 #!/bin/bash
 # Extract the models (coqc Extract.v) and build build/modelrun.  Requires the model .vo files.
+# main.ml is generated: every ocaml/drv_cNN.ml must define  run : string list -> unit.
 set -e
 cd "$(dirname "$0")"
 B=../build/ocaml
@@ -7,5 +8,14 @@ mkdir -p $B
 rm -f $B/*.ml $B/*.mli
 (cd $B && coqc -R /verif/coq TV /verif/coq/Extract.v > extract.log 2>&1) || { cat $B/extract.log; exit 1; }
 cp *.ml dune dune-project $B/
-(cd $B && dune build ./main.exe 2>&1 | tail -30)
+{
+ echo 'let () ='
+ echo '  let prop = if Array.length Sys.argv > 1 then Stdlib.String.uppercase_ascii Sys.argv.(1) else "" in'
+ echo '  let args = if Array.length Sys.argv > 2 then Stdlib.List.tl (Stdlib.List.tl (Array.to_list Sys.argv)) else [] in'
+ echo '  match prop with'
+ for f in drv_c*.ml; do n=$(basename $f .ml); P=$(echo ${n#drv_} | tr a-z A-Z); M=$(echo ${n:0:1} | tr a-z A-Z)${n:1}; echo "  | \"$P\" -> $M.run args"; done
+ echo '  | _ -> prerr_endline ("modelrun: unknown property " ^ prop); exit 2'
+} > $B/main.ml
+(cd $B && dune build ./main.exe 2>&1 | tail -40)
+[ -f $B/_build/default/main.exe ] || exit 1
 cp -f $B/_build/default/main.exe ../build/modelrun
